@@ -1,12 +1,24 @@
 #!/bin/bash
 # /tmp/seed/mk.sh Cxx : create worktree + prompt file for a seeding sub-agent
-p=$1
+p=$1; round=${2:-A}
+if [ "$round" = "B" ]; then k1=m3; k2=m4; else k1=m1; k2=m2; fi
+export SEED_K1=$k1 SEED_K2=$k2 SEED_ROUND=$round
+mkdir -p /tmp/seed
 wt=/tmp/seed/wt-$p; out=/tmp/seed/out-$p
 [ -d $wt ] || git -C /repo worktree add -q --detach $wt HEAD
-mkdir -p $out/m1 $out/m2
+mkdir -p $out/$k1 $out/$k2
 /venv/bin/python - "$p" > /tmp/seed/prompt-$p.txt <<'PY'
-import json,sys
+import json,sys,os
 pid=sys.argv[1]
+K1,K2,ROUND=os.environ["SEED_K1"],os.environ["SEED_K2"],os.environ["SEED_ROUND"]
+EXTRA = "" if ROUND != "B" else """
+SPECIAL EMPHASIS FOR THIS ROUND: earlier mutants for this property already attacked the most obvious line of its main mechanism.
+Aim elsewhere this time -- second-order sites such as: glue/wiring of the anchored block inside its enclosing module (e.g. how a
+sub-block's ports are connected, qualified or registered), reset/initial values and what is (not) cleared on a restart/abort/reset path,
+parameter-dependent widths/ranges and rarely used constructor options or configurations, priority between two simultaneously
+true conditions, off-by-one in a limit that only matters at a boundary size, state carried over from a PREVIOUS operation into the next
+one, or an interaction between two of the listed files. The two mutants must differ from each other in mechanism.
+"""
 for l in open('/verif/properties.jsonl'):
     p=json.loads(l)
     if p['id']==pid: break
@@ -29,7 +41,8 @@ Code it is anchored in: {', '.join(anch['files'])}
 Mechanisms: {'; '.join(m['name']+' ('+m['where']+')' for m in anch['mechanism'])}
 Observable at: {', '.join(anch['observe_at'])}
 
-WHAT TO PRODUCE: two different mutants, m1 and m2 (different sites or different failure mechanisms). For each mutant k in (m1, m2)
+{EXTRA}
+WHAT TO PRODUCE: two different mutants, {K1} and {K2} (different sites or different failure mechanisms). For each mutant k in ({K1}, {K2})
 write into /tmp/seed/out-{pid}/<k>/ :
   patch.diff  - `git diff` of your change against the worktree's HEAD (must apply with `git apply` from the repo root;
                 only files under luna/ ; do not edit tests).
